@@ -1213,7 +1213,7 @@ class UserSessionManager(Service, discriminator="user-session-manager"):
         def _remote_login(request: RequestFormat, context: Dict) -> RequestResponse:
             """Request should take the form [username, password, remote_ip_address]."""
             username, password, remote_ip_address = request
-            response = RequestResponse.from_bool(self.remote_login(username, password, remote_ip_address))
+            response = RequestResponse.from_bool(self.remote_login(username, password, remote_ip_address) is not None)
             response.data = {"remote_hostname": self.parent.config.hostname, "username": username}
             return response
 
